@@ -775,15 +775,15 @@ class MaterialIndexer(Indexer):
         if self is other: return
         phase_indexer = self._phase_indexer
         if isinstance(other, ChemicalIndexer):
-            self.empty()
             other_data = other.data
+            if other_data.shares_data_with(self.data): other_data = other_data.copy() # A phase of this same material
+            self.empty()
             phase = other.phase
             if phase not in phase_indexer: self._expand_phases(phase)
             phase_index = self._phase_indexer(phase)
             if self.chemicals is other.chemicals:
                 self.data.rows[phase_index].copy_like(other_data)
             else:
-                other_data = other.data
                 left_index, right_index = index_overlap(self._chemicals, other._chemicals, [*other_data.nonzero_keys()])
                 self.data.rows[phase_index][left_index] = other_data[right_index] 
         else:
